@@ -20,6 +20,20 @@ def run(R):
     loops = [n for n in ck.cfg.nodes if n.kind == 'for' and isinstance(n.ast.iter, ast.Call) and callee_attr(n.ast.iter) == '_match']
     inst = ck.qual + ' :: nested match'
     probs = []
+    # role-based, whatever the shape: no match of the *key* name may start from an empty context (it must start from what a packet match bound)
+    ckp0 = [a_.arg for a_ in ck.f.node.args.args][1:3]
+    for (n_, c_) in calls_in_ctx(ck, attr='_match'):
+        if len(c_.args) == 2 and root_params(ck, n_, c_.args[0]) == {ckp0[1]}:
+            ca = c_.args[1]
+            fresh = (isinstance(ca, ast.Dict) and not ca.keys) or (isinstance(ca, ast.Call) and ast.unparse(ca.func) == 'dict' and not ca.args and not ca.keywords)
+            if isinstance(ca, ast.Name):
+                srcs = ck.sources(n_, ca)
+                fresh = bool(srcs) and all(s_.kind == 'expr' and isinstance(s_.expr, ast.Dict) and not s_.expr.keys for s_ in srcs)
+            if fresh:
+                R.fail('C12.PRV.1', inst + ' (key matched without the packet\'s bindings)', ck.qual, c_, f'`{ast.unparse(c_)}` matches the key name under an empty '
+                       'context: a key rule whose constraints refer to a pattern bound by the packet name cannot be satisfied (or is satisfied by a key that '
+                       'disagrees with the packet) when that pattern is unbound, so the answer is decided without the bindings the signing relation is about',
+                       site(ck, c_))
     if len(loops) != 2:
         raise AnalysisError(f'Checker.check: {len(loops)} loops over _match(...) found; the nested packet / key match is not in a recognised form')
     else:
@@ -81,6 +95,12 @@ def run(R):
         # with a non-empty name ending in an implicit digest, the match is reached only through the stripping assignment
 
         def digest_case(e):
+            if isinstance(e, ast.Compare) and len(e.ops) == 1 and isinstance(e.ops[0], (ast.In, ast.NotIn)) and 'get_type(' in full_text(ck, e.left):
+                from ..loader import NOVALUE
+                from .common import inline_ast
+                v = P.const_value(ck.f.mod, inline_ast(ck, e).comparators[0])
+                if v is not NOVALUE:
+                    return (1 in set(v)) == isinstance(e.ops[0], ast.In)
             if isinstance(e, ast.Compare) and len(e.ops) == 1 and isinstance(e.ops[0], (ast.Eq, ast.NotEq)) and 'TYPE_IMPLICIT_SHA256' in full_text(ck, e) \
                     and 'get_type(' in full_text(ck, e):
                 return isinstance(e.ops[0], ast.Eq)
@@ -94,6 +114,8 @@ def run(R):
             R.ok('C12.SIB.1', inst, site(ck, strips[0].node.ast))
         else:
             R.fail('C12.SIB.1', inst, ck.qual, lp.ast.iter, f'{par} is not normalised and stripped of a trailing implicit digest before matching', site(ck, ck.f.node))
+    from .lvs import digest_strip_types
+    digest_strip_types(R, 'C12.SIB.1', ck)
     R.ob('C12.NUL.1', 'the empty name is a name: its (absent) last component is not inspected')
     last_component_guarded(R, 'C12.NUL.1', ck)
     mt = ctx(R, CK + '.Checker.match')
